@@ -318,6 +318,12 @@ def case(args):
                       {"name": "touchR", "chr": "chr1", "blocks": [[8500, 8799]], "reverse": False},
                       {"name": "gapL", "chr": "chr1", "blocks": [[4700, 4999]], "reverse": True},
                       {"name": "edge", "chr": "chr1", "blocks": [[1, 300]], "reverse": False}]
+        # a multi-mapped read: the primary record follows TA and carries the tail, the secondary record (SEQ '*', as aligners write it)
+        # covers TA's last two exons - the two records are neighbours in coordinate order, in either direction
+        tail = {"clip_right": "A" * 30} if param == "+" else {"clip_left": "T" * 30}
+        w["reads"].append(dict({"name": "mmq", "chr": "chr1", "blocks": ea, "reverse": param == "-"}, **tail))
+        w["reads"].append({"name": "mmq", "chr": "chr1", "blocks": [ea[1], [ea[2][0], ea[2][1] + 100]], "reverse": param == "-", "secondary": True,
+                           "no_seq": True})          # starts after the primary record and ends after it: a neighbour in both directions
         tag = "boundary" + ("p" if param == "+" else "m")
         extra = ["--no_model_construction"]
         models = False
